@@ -147,7 +147,7 @@ fn alts_short(alts: &[Alt]) -> String {
 pub fn gen_case(rng: &mut Rng, c02: bool, thorough: bool) -> CrashCase {
   // swarm: long documents (multi-write files and log records) in one run of
   // eight; a large id space with bursts of adds in one run of twenty-five
-  let big_every = if rng.chance(1, 8) { 2 + rng.below(3) as u32 } else { 0 };
+  let big_every = if rng.chance(1, 6) { 2 + rng.below(3) as u32 } else { 0 };
   let many = rng.chance(1, if c02 { 40 } else { 30 });
   let cfg = Cfg {
     storage: StorageKind::Fs,
